@@ -544,6 +544,20 @@ class Interp:
         x = self.num_operand(a)
         y = self.num_operand(b)
         rt = TNum(inf=True, nan=True)
+        if isinstance(x.ty, TNum) and isinstance(y.ty, TNum) and x.ty.static_finite and y.ty.static_finite:
+            # both operands are finite int/float by their shapes: the finite case of CPython's arithmetic, no case analysis
+            xr, yr = Z.Val.r(x.t), Z.Val.r(y.t)
+            bi = z3.And(Z.Val.isint(x.t), Z.Val.isint(y.t))
+            if isinstance(op, ast.Add):
+                return SV(Z.Val.numv(bi, xr + yr), TNum())
+            if isinstance(op, ast.Sub):
+                return SV(Z.Val.numv(bi, xr - yr), TNum())
+            if isinstance(op, ast.Mult):
+                return SV(Z.Val.numv(bi, xr * yr), TNum())
+            if isinstance(op, ast.Div):
+                if self.ctx.branch(yr == 0, "divzero"):
+                    raise PyRaise(self.make_exception(ExternalRef("ZeroDivisionError"), ["division by zero"]))
+                return SV(Z.mk_flt(xr / yr), TNum(only="float"))
         if isinstance(op, ast.Add):
             return SV(Z.num_add(x.t, y.t), rt)
         if isinstance(op, ast.Sub):
